@@ -39,6 +39,70 @@ def chain_src(d, vals=None, void=False, pad=0, ptr=False):
     return '\n'.join(out) + '\n'
 
 
+def ladder_src(d, vals=None):
+    """diamonds through DISTINCT intermediate functions: f_i calls l_i and r_i, each of which calls f_{i-1} (or a marker)"""
+    out = ['@group(0) @binding(0) var<storage, read_write> u: array<u32, 4>;', 'fn fn0() { u[0] = 1u; }']
+    for i in range(1, d + 1):
+        out += [f'fn ml{i}() {{}}', f'fn mr{i}() {{}}']
+    for i in range(1, d + 1):
+        cl = (vals or {}).get(f'l{i}', f'ml{i}')
+        cr = (vals or {}).get(f'r{i}', f'mr{i}')
+        out += [f'fn l{i}() {{ {cl}(); }}', f'fn r{i}() {{ {cr}(); }}', f'fn fn{i}() {{ l{i}(); r{i}(); }}']
+    out.append(f'@compute @workgroup_size(1) fn main() {{ fn{d}(); }}')
+    out.append(f'@fragment fn fmain() {{ fn{d}(); }}')
+    return '\n'.join(out) + '\n'
+
+
+def ladder_family(ctx, seen, d):
+    S, c = ctx.S, ctx.S.conv
+    src = ladder_src(d)
+    dmp = S.dump(src)
+    mj = dmp['module']
+    fh = {f['name']: i for i, f in enumerate(mj['functions'])}
+    module = c.module(dmp)
+    funcs = c.get(module, 'functions').fields[0].items
+    assume, terms = [], {}
+    sym_levels = [d, d - 1, d - 3]
+    for i in range(1, d + 1):
+        for side in ('l', 'r'):
+            t = z3.BitVec(f'{side}{i}', 32)
+            terms[f'{side}{i}'] = t
+            subst_callee(c, funcs[fh[f'{side}{i}']], fh[f'm{side}{i}'], t)
+            if i in sym_levels:
+                assume.append(z3.Or(t == fh[f'm{side}{i}'], t == fh[f'fn{i - 1}']))
+            else:
+                assume.append(t == fh[f'fn{i - 1}'])
+    n_funcs, n_sites = len(mj['functions']), 4 * d + 2
+    budget = 2 * (n_funcs + n_sites + 1)
+    res = ctx.explore(f'global_shader_stages/ladder-depth-{d}', lambda it: it.call('global_shader_stages', [mkref(module)]), assume=assume,
+                      env={'call_caps': {'update_stages': budget + 1}}, anchors=['global_shader_stages', 'update_stages'], timeout_s=1500, max_paths=20000)
+    worst = 0
+    for pc, kind, out, calls in res:
+        n = calls.get('update_stages', 0)
+        ctx.queries['discharged'] += 1
+        if kind == 'panic':
+            raise Inconclusive('stage walk panicked: ' + out)
+        if kind == 'cost':
+            n = budget + 1
+        worst = max(worst, n)
+        if n <= budget:
+            ctx.queries['unsat'] += 1
+            continue
+        ctx.queries['sat'] += 1
+        key = 'C20/call-graph-ladder'
+        seen[key] = seen.get(key, 0) + 1
+        if seen[key] > 1:
+            continue
+        D = 30
+        big = ladder_src(D, {f'{sd}{i}': f'fn{i - 1}' for i in range(1, D + 1) for sd in ('l', 'r')})
+        secs, okv = timed_gen(ctx, big, {})
+        base, _ = timed_gen(ctx, ladder_src(D), {})
+        det = {'wgsl': big, 'depth': D, 'lines': big.count('\n'), 'seconds': round(secs, 3), 'same_size_shader_without_calls_seconds': round(base, 3)}
+        ctx.report(key, f'update_stages entered {">= " if kind == "cost" else ""}{n} times on a {n_funcs}-function / {n_sites}-call-site ladder (linear budget {budget})',
+                   det, secs > max(1.0, 20 * base), det)
+    ctx.extra['call_graph_ladder'] = {'paths': len(res), 'worst_update_stages_invocations': worst, 'budget': budget, 'functions': n_funcs}
+
+
 def struct_src(d, vals=None):
     out = ['struct T0 { a: f32, b: f32 }']
     for i in range(1, d + 1):
@@ -69,7 +133,7 @@ def run(ctx):
     S, c = ctx.S, ctx.S.conv
     quick = ctx.tier == 'quick'
     d = 7 if quick else 9
-    ctx.bounds = {'call chain depth': d, 'parameter type of the helpers (value family)': 'f32 or ptr<function, f32> (symbolic)', 'unrelated functions declared before the chain': '0 and 70' if quick else '0, 70 and 300', 'struct nesting depth': d, 'shapes': 'per level: call of the previous level present/absent; on two (thorough: three) levels also a '
+    ctx.bounds = {'call chain depth': d, 'parameter type of the helpers (value family)': 'f32 or ptr<function, f32> (symbolic)', 'unrelated functions declared before the chain': '0 and 70' if quick else '0, 70 and 300', 'struct nesting depth': d, 'ladder': 'f_i -> l_i, r_i -> f_(i-1): diamonds through distinct intermediate functions, 3 levels symbolic', 'shapes': 'per level: call of the previous level present/absent; on two (thorough: three) levels also a '
                   'call of level i-2 or of a shared leaf; per struct level each of two members is scalar / previous struct / array of it (symbolic on 3 levels, both = struct elsewhere)'}
     ctx.assumptions += ['cost measure = interpreted invocations of the recursive walkers (deterministic; the native replay at depth 24 shows the wall-clock effect)',
                         'budget: call graph walk <= entries * (functions + call sites + 1); type walk <= variables * (types + member edges + 1): linear in the size of the shader']
@@ -139,6 +203,7 @@ def run(ctx):
         ctx.extra['call_graph_' + ('void' if void else 'value') + (f'_pad{pad}' if pad else '')] = {'paths': len(res), 'worst_update_stages_invocations': worst[0], 'budget': budget, 'functions': n_funcs, 'call_sites': n_sites}
         ctx.sample({'harness': 'chain', 'depth': d, 'worst invocations': worst[0], 'budget': budget})
         ctx.vacuity_witness('cost assertion reachable', res[0][0])
+    ladder_family(ctx, seen, 6 if quick else 8)
     # ------------------------------------------------------------------ (b) type graphs
     src2 = struct_src(d)
     dmp2 = S.dump(src2)
